@@ -108,6 +108,13 @@ def dump_consistent(ans):
 
 class C08(Prop):
     named_errors = {"Null", "Bounds"}     # "a zero entry as null, an unknown name or out-of-range ordinal as null/bounds"
+
+    def own_named(self, op):
+        # the reverse lookups on a self-contradictory directory: no kind is named for them
+        w = op.split(" ")
+        if len(w) > 2 and w[0] == "export" and w[2] in ("name_lookup", "name_of_hint"):
+            return set()
+        return self.named_errors
     pid = "C08"
     title = "export lookups agree with the export tables for every table shape"
     thm_modules = ["PeliteModel.Thm.C08", "PeliteModel.Thm.ImageLayout", "PeliteModel.Thm.C08Layout", "PeliteModel.Thm.Witnesses64"]
@@ -156,6 +163,13 @@ class C08(Prop):
         if want is None:
             return None
         if got != want:
+            # both fail: the statement names the kind only for "a zero entry as null, an unknown name or
+            # out-of-range ordinal as null/bounds" (queries ordinal / index / hint / name / name_linear /
+            # hint_name / import / get / proc); which kind a self-contradictory directory reports for the reverse
+            # lookups (name_lookup, name_of_hint) is the library's choice
+            q = w[2] if len(w) > 2 else ""
+            if got.startswith("err") and want.startswith("err") and q in ("name_lookup", "name_of_hint"):
+                return None
             return "lookup answered %s, the export tables denote %s" % (impl[:300], want[:300])
         return None
 
